@@ -150,6 +150,8 @@ ALL_OPERATIONS = {pid for pid, over in _quantifiers().items()
 # C09 says so itself: "every public operation of dd.autoref (and of dd.bdd
 # when its operands are referenced)"
 ALL_OPERATIONS.add('C09')
+# C02: "whichever way they were built" - every operation builds references
+ALL_OPERATIONS.add('C02')
 
 
 # C19 is about the C wrappers: of the pure-Python package only the shared
